@@ -258,7 +258,8 @@ static bool cond_demand(const struct cmb_condition *c, const struct cmb_process 
     (void)c;
     const int pred = (int)(intptr_t)ctx;
     const bool v = pred_eval(pred);
-    fprintf(out, "{\"e\":\"Pred\",\"p\":%d,\"pred\":%d,\"v\":%s}\n", pid_of(pp), pred, v ? "true" : "false");
+    if (cmi_verif_sink != NULL)      /* not during the unlogged teardown */
+        fprintf(out, "{\"e\":\"Pred\",\"p\":%d,\"pred\":%d,\"v\":%s}\n", pid_of(pp), pred, v ? "true" : "false");
     return v;
 }
 
